@@ -15,8 +15,8 @@ def dWon : DTh → Nat
 def DInv (s : Sys DSh DTh) : Prop :=
   s.sh.actions + wsum dWon s.pcs = s.sh.isDisposed.toNat ∧ (0 < s.sh.returned → s.sh.isDisposed = true)
 
-theorem dInv_step (s : Sys DSh DTh) (tid : Nat) (h : DInv s) : DInv (s.step dStep tid) := by
-  apply Sys.step_cases dStep s tid DInv h
+theorem dInv_step (raises : Nat → Bool) (s : Sys DSh DTh) (tid : Nat) (h : DInv s) : DInv (s.step (dStep raises) tid) := by
+  apply Sys.step_cases (dStep raises) s tid DInv h
   intro p hp
   obtain ⟨rest, h1, h2⟩ := wsum_split dWon s.pcs tid p hp
   obtain ⟨ha, hr⟩ := h
@@ -39,18 +39,18 @@ theorem dInv_init (calls : List Nat) : DInv (dInit calls) := by
     apply wsum_eq_zero; intro a ha; simp [dInit] at ha; obtain ⟨n, _, rfl⟩ := ha; rfl
   rw [this]; simp [dInit]
 
-theorem dInv_run (calls : List Nat) (sched : List Nat) : DInv ((dInit calls).run dStep sched) :=
-  Sys.run_inv dStep DInv dInv_step _ sched (dInv_init calls)
+theorem dInv_run (raises : Nat → Bool) (calls : List Nat) (sched : List Nat) : DInv ((dInit calls).run (dStep raises) sched) :=
+  Sys.run_inv (dStep raises) DInv (dInv_step raises) _ sched (dInv_init calls)
 
 /-- one thread, flag already set: every further call is one step and changes nothing but `returned` -/
-theorem d_seq_tail (sh : DSh) (n : Nat) (hd : sh.isDisposed = true) :
-    let s := (Sys.run dStep ⟨sh, [(.idle, n)]⟩ (List.replicate n 0))
+theorem d_seq_tail (raises : Nat → Bool) (sh : DSh) (n : Nat) (hd : sh.isDisposed = true) :
+    let s := (Sys.run (dStep raises) ⟨sh, [(.idle, n)]⟩ (List.replicate n 0))
     s.sh.actions = sh.actions ∧ s.sh.isDisposed = true ∧ s.sh.returned = sh.returned + n ∧ s.pcs = [(.idle, 0)] := by
   induction n generalizing sh with
   | zero => simp [Sys.run, hd]
   | succ n ih =>
     simp only [List.replicate_succ, Sys.run_cons]
-    have hs : Sys.step dStep ⟨sh, [(.idle, n + 1)]⟩ 0
+    have hs : Sys.step (dStep raises) ⟨sh, [(.idle, n + 1)]⟩ 0
         = ⟨{ sh with returned := sh.returned + 1, log := sh.log ++ [.lock 0, .ret .unit] }, [(.idle, n)]⟩ := by
       simp [Sys.step, dStep, hd]
     rw [hs]
